@@ -172,7 +172,10 @@ where
         writer: &mut WriteConnection<<Listener::Socket as Socket>::WriteHalf>,
     ) -> crate::Result<Option<Service::ReplyStream>> {
         let mut stream = None;
+        // A oneway call gets no reply, whatever the service makes of it.
+        let oneway = call.oneway();
         match self.service.handle(call).await {
+            MethodReply::Single(_) | MethodReply::Error(_) if oneway => (),
             MethodReply::Single(params) => {
                 let reply = Reply::new(params).set_continues(Some(false));
                 writer.send_reply(&reply).await?
